@@ -517,7 +517,9 @@ pub fn do_navigate_command_string(mathml: Element, nav_command: &'static str) ->
         let mut count = count-1;
         loop {
             // debug!("  ... loop count={}", count);
-            let (_, nav_command) = nav_state.top().unwrap();
+            let Some((_, nav_command)) = nav_state.top() else {
+                break;      // nothing left to pop (e.g., the first command after setting the MathML looped without moving)
+            };
             if (nav_command.starts_with("Move") || nav_command.starts_with("Zoom")) && nav_command != "MoveLastLocation" {
                 nav_state.pop();
             }
